@@ -509,7 +509,7 @@ class Ctx:
         posts = [o for o in self.obs if o.kind != 'witness']
         n_ob = len(posts)
         n_dis = sum(1 for o in posts if o.status == 'discharged')
-        n_inc = sum(1 for o in posts if o.status == 'inconclusive')
+        n_inc = sum(1 for o in self.obs if o.status == 'inconclusive')       # an undecided reachability witness counts too: vacuity would go unnoticed
         n_ne = sum(1 for o in posts if o.status == 'not_encoded')
         n_vac = sum(1 for o in self.obs if o.status == 'vacuous')
         samples = []
